@@ -100,9 +100,10 @@ func cleanSuffix(val any) any {
 	switch t := val.(type) {
 	case map[string]any:
 		for k, v := range t {
-			parts := strings.Split(k, "#")
+			key := strings.Split(k, "#")[0]
 
-			result[parts[0]] = cleanSuffix(v)
+			// keys differing only in the suffix are parts of the same (list) property
+			result[key] = merge(result[key], v)
 		}
 
 		return result
